@@ -4,4 +4,4 @@ M=$1; D=$2; P=$3
 export BLOBS=$D/${P}blobs.ndjson DECODED=$D/${P}decoded.ndjson TRACE=$D/${P}trace.ndjson
 cd /verif/spec
 [ -s $BLOBS ] && timeout 300 tlc -workers 1 -metadir $D/md -cleanup -noGenerateSpecTE -config Decode.cfg Decode.tla 2>&1 | grep -E 'Error|rror:' | head
-JAVA_TOOL_OPTIONS="-Xss1g -Dtlc2.tool.queue.IStateQueue=StateDeque" timeout 300 tlc -workers 1 -metadir $D/md -cleanup -noGenerateSpecTE -config $M.cfg $M.tla 2>&1 | grep -vE '^(Parsing|Semantic|Linting)' | grep -A${4:-12} -E 'Error|TV_REJECT|states generated' | head -${5:-80}
+JAVA_TOOL_OPTIONS="-Xss1g -Dtlc2.tool.queue.IStateQueue=StateDeque -Dtlc2.overrides.TLCOverrides=tlc2.overrides.TLCOverrides:RdpPrims" timeout 300 java -cp /opt/veriftools/tla/tla2tools.jar:/opt/veriftools/tla/CommunityModules-deps.jar:/verif/spec/overrides tlc2.TLC -workers 1 -metadir $D/md -cleanup -noGenerateSpecTE -config $M.cfg $M.tla 2>&1 | grep -vE '^(Parsing|Semantic|Linting)' | grep -A${4:-12} -E 'Error|TV_REJECT|states generated' | head -${5:-80}
